@@ -25,7 +25,7 @@ for _t in ('nterm', 'cterm'):
                  ('nothing-else', ' and '.join('same(self_final.%s, self.%s)' % (g, g) for g in others))])
 C[PA + 'add_internal_mods'] = dict(
     params=dict(self='Annotation', mods='Dict[int,ModList]', append='bool'), returns='None', mutates=['self'], trusted=True, raises={},
-    requires=[('append-mode', 'append')], bounded_by='add_* stores: bounded/C20.py, bounded/C12.py (condensed values)',
+    requires=[('append-mode', 'append')], bounded_by='body proved with exact values (CAT of the old list and the normalised new one) in contracts/stores.py (add_internal_mods~append); the clauses assumed here follow from it',
     ensures=[('given-positions-modified', 'forall(lambda j: implies(j in mods, im_has(self_final, j)))'),
              ('other-positions-kept', 'forall(lambda j: implies(not (j in mods), pos_same(self_final, self, j)))'),
              ('existing-stay-modified', 'forall(lambda j: implies(im_has(self, j), im_has(self_final, j)))'),
